@@ -18,7 +18,7 @@ not modelled: it is exercised on the implementation only (labelled as a test in 
 `int(str(n)) == n` is `int_str` / `int_str_call` (decimal printing/parsing, by induction on the digits).
 -/
 namespace P2sh.Props.C11
-open P2sh P2sh.Builtins
+open P2sh P2sh.Builtins P2sh.Proofs
 open P2sh.Spec.Builtins (Out)
 
 theorem decodeUtf8_utf8Bytes (s : String) : decodeUtf8 (utf8Bytes s) = some s := by
@@ -1061,5 +1061,286 @@ theorem sort_ints (ns : List Int64) :
     simp only [leVal_int, Bool.or_eq_true, decide_eq_true_eq]; omega
 
 example : (sortVals [.int 3, .int (-1), .int 2]).Perm [.int 3, .int (-1), .int 2] := (sort_ints [3, -1, 2]).2
+
+/-! ## sort: the arrays it orders -/
+
+/-- `sort` through an order-reflecting key: if on the elements of `xs` the model's `≤` is the
+decidable, transitive and total relation `le` on a key, the result is sorted -/
+theorem sort_sorted_of_key {κ : Type} (key : Val → κ) (le : κ → κ → Prop) [DecidableRel le]
+    (trans : ∀ a b c, le a b → le b c → le a c) (total : ∀ a b, le a b ∨ le b a) (xs : List Val)
+    (h : ∀ a ∈ xs, ∀ b ∈ xs, leVal a b = decide (le (key a) (key b))) :
+    (sortVals xs).Pairwise (fun a b => leVal a b = true) ∧ (sortVals xs).Perm xs := by
+  apply sort_sorted_perm
+  · intro a ha b hb c hc
+    rw [h a ha b hb, h b hb c hc, h a ha c hc]
+    simp only [decide_eq_true_eq]
+    exact trans _ _ _
+  · intro a ha b hb
+    rw [h a ha b hb, h b hb a ha]
+    simp only [Bool.or_eq_true, decide_eq_true_eq]
+    exact total _ _
+
+def notGt : Option Ord3 → Bool
+  | some .gt => false
+  | _ => true
+
+theorem leVal_eq (a b : Val) : leVal a b = notGt (a.partialCmp b) := rfl
+
+theorem leVal_cmpOf {α} [LT α] [DecidableRel (α := α) (· < ·)] [BEq α] [LawfulBEq α] (a b : α)
+    (hgt : b < a ↔ ¬ a < b ∧ a ≠ b) :
+    notGt (some (cmpOf a b)) = decide (¬ b < a) := by
+  have h := C09.cmpOf_gt a b hgt
+  by_cases hlt : b < a
+  · have hg : cmpOf a b = Ord3.gt := by simpa [hlt] using h
+    simp [hg, hlt, notGt]
+  · have hg : cmpOf a b ≠ Ord3.gt := by intro e; rw [e] at h; simp [hlt] at h
+    rw [decide_eq_true hlt]
+    cases hc : cmpOf a b with
+    | gt => exact absurd hc hg
+    | lt => rfl
+    | eq => rfl
+
+theorem leVal_str (a b : String) : leVal (.str a) (.str b) = decide (a ≤ b) := by
+  rw [leVal_eq]; simp only [Val.partialCmp]
+  rw [leVal_cmpOf a b (string_gt_iff a b)]
+  simp [String.not_lt]
+
+theorem leVal_char (a b : Char) : leVal (.char a) (.char b) = decide (a ≤ b) := by
+  rw [leVal_eq]; simp only [Val.partialCmp]
+  rw [leVal_cmpOf a b (char_gt_iff a b)]
+  simp [Char.not_lt]
+
+theorem u8_gt_iff (a b : UInt8) : b < a ↔ ¬ a < b ∧ a ≠ b := by
+  simp only [UInt8.lt_iff_toNat_lt, ne_eq, ← UInt8.toNat_inj]; omega
+
+theorem leVal_byte (a b : UInt8) : leVal (.byte a) (.byte b) = decide (a.toNat ≤ b.toNat) := by
+  rw [leVal_eq]; simp only [Val.partialCmp]
+  rw [leVal_cmpOf a b (u8_gt_iff a b)]
+  simp [UInt8.lt_iff_toNat_lt]
+
+theorem leVal_bool : ∀ a b : Bool, leVal (.bool a) (.bool b) = decide (a.toNat ≤ b.toNat) := by decide
+
+/-! ### doubles: the IEEE comparison of non-NaN values is a lexicographic order on a key -/
+
+open Float.Model in
+/-- class (−∞, negative, zero, positive, +∞), then exponent and mantissa (negated for negatives) -/
+def ukey : UnpackedFloat → Int × Int × Int
+  | .infinity .negative => (-2, 0, 0)
+  | .infinity .positive => (2, 0, 0)
+  | .notANumber => (0, 0, 0)
+  | .zero _ => (0, 0, 0)
+  | .finite .positive m e _ => (1, e, m)
+  | .finite .negative m e _ => (-1, -e, -(m : Int))
+
+def lexle (k1 k2 : Int × Int × Int) : Prop :=
+  k1.1 < k2.1 ∨ (k1.1 = k2.1 ∧ (k1.2.1 < k2.2.1 ∨ (k1.2.1 = k2.2.1 ∧ k1.2.2 ≤ k2.2.2)))
+
+instance : DecidableRel lexle := fun _ _ => by unfold lexle; infer_instance
+
+theorem lexle_trans (a b c : Int × Int × Int) (h1 : lexle a b) (h2 : lexle b c) : lexle a c := by
+  unfold lexle at *; omega
+
+theorem lexle_total (a b : Int × Int × Int) : lexle a b ∨ lexle b a := by
+  unfold lexle; omega
+
+def notGtO : Option Ordering → Bool
+  | some .gt => false
+  | none => false
+  | _ => true
+
+theorem then_ne_gt (e1 e2 : Int) (m1 m2 : Nat) :
+    ((compare e1 e2).then (compare m1 m2) ≠ .gt) ↔ (e1 < e2 ∨ (e1 = e2 ∧ m1 ≤ m2)) := by
+  rw [Ne, Ordering.then_eq_gt, Int.compare_eq_gt, Int.compare_eq_eq, Nat.compare_eq_gt]; omega
+
+theorem then_swap_ne_gt (e1 e2 : Int) (m1 m2 : Nat) :
+    (((compare e1 e2).then (compare m1 m2)).swap ≠ .gt) ↔ (e2 < e1 ∨ (e1 = e2 ∧ m2 ≤ m1)) := by
+  have : ∀ o : Ordering, o.swap = .gt ↔ o = .lt := by decide
+  rw [Ne, this, Ordering.then_eq_lt, Int.compare_eq_lt, Int.compare_eq_eq, Nat.compare_eq_lt]; omega
+
+open Float.Model in
+theorem compare_key (x y : UnpackedFloat) (hx : x ≠ .notANumber) (hy : y ≠ .notANumber) :
+    notGtO (x.compare y) = decide (lexle (ukey x) (ukey y)) := by
+  cases x with
+  | notANumber => exact absurd rfl hx
+  | infinity s =>
+    cases y with
+    | notANumber => exact absurd rfl hy
+    | infinity t => cases s <;> cases t <;> decide
+    | zero t => cases s <;> cases t <;> decide
+    | finite t m e h => cases s <;> cases t <;> simp [UnpackedFloat.compare, notGtO, ukey, lexle]
+  | zero s =>
+    cases y with
+    | notANumber => exact absurd rfl hy
+    | infinity t => cases s <;> cases t <;> decide
+    | zero t => cases s <;> cases t <;> decide
+    | finite t m e h => cases t <;> simp [UnpackedFloat.compare, notGtO, ukey, lexle]
+  | finite s m e h =>
+    cases y with
+    | notANumber => exact absurd rfl hy
+    | infinity t => cases s <;> cases t <;> simp [UnpackedFloat.compare, notGtO, ukey, lexle]
+    | zero t => cases s <;> simp [UnpackedFloat.compare, notGtO, ukey, lexle]
+    | finite t m' e' h' =>
+      cases s <;> cases t
+      · have := then_swap_ne_gt e e' m m'
+        simp only [UnpackedFloat.compare, ukey, lexle]
+        cases hc : ((compare e e').then (compare m m')).swap <;> simp [hc, notGtO] at this ⊢ <;> omega
+      · simp [UnpackedFloat.compare, notGtO, ukey, lexle]
+      · simp [UnpackedFloat.compare, notGtO, ukey, lexle]
+      · have := then_ne_gt e e' m m'
+        simp only [UnpackedFloat.compare, ukey, lexle]
+        cases hc : (compare e e').then (compare m m') <;> simp [hc, notGtO] at this ⊢ <;> omega
+
+open Float.Model in
+theorem compare_isSome (x y : UnpackedFloat) (hx : x ≠ .notANumber) (hy : y ≠ .notANumber) :
+    (x.compare y).isSome = true := by
+  cases x with
+  | notANumber => exact absurd rfl hx
+  | infinity s =>
+    cases y with
+    | notANumber => exact absurd rfl hy
+    | infinity t => rfl
+    | zero t => cases s <;> rfl
+    | finite t m e h => cases s <;> rfl
+  | zero s =>
+    cases y with
+    | notANumber => exact absurd rfl hy
+    | infinity t => cases t <;> rfl
+    | zero t => rfl
+    | finite t m e h => cases t <;> rfl
+  | finite s m e h =>
+    cases y with
+    | notANumber => exact absurd rfl hy
+    | infinity t => cases t <;> rfl
+    | zero t => cases s <;> rfl
+    | finite t m' e' h' => cases s <;> cases t <;> rfl
+
+/-- not a NaN -/
+def IsNum (f : Float) : Prop := f.toModel.unpack ≠ .notANumber
+
+def fkey (f : Float) : Int × Int × Int := ukey f.toModel.unpack
+
+theorem leVal_float (a b : Float) (ha : IsNum a) (hb : IsNum b) :
+    leVal (.float a) (.float b) = decide (lexle (fkey a) (fkey b)) := by
+  have hk := compare_key _ _ ha hb
+  have hs := compare_isSome _ _ ha hb
+  have hlt := float_lt_iff a b
+  have heq := float_beq_iff a b
+  have hgt := float_lt_iff b a
+  rw [fcmp_swap] at hgt
+  rw [leVal_eq]
+  simp only [Val.partialCmp, cmpFloat]
+  show _ = decide (lexle (ukey _) (ukey _))
+  rw [← hk]
+  change (fcmp a b).isSome = true at hs
+  show _ = notGtO (fcmp a b)
+  cases h : fcmp a b with
+  | none => rw [h] at hs; cases hs
+  | some o =>
+    rw [h] at hlt heq hgt
+    cases o <;> simp_all [notGt, notGtO]
+
+theorem isNum_of_comparable (f : Float) (h : ((Val.float f).partialCmp (.float f)).isSome = true) : IsNum f := by
+  intro hn
+  have hc : fcmp f f = none := by unfold fcmp; rw [hn]; rfl
+  have hlt := float_lt_iff f f
+  have heq := float_beq_iff f f
+  rw [hc] at hlt heq
+  simp only [Val.partialCmp, cmpFloat] at h
+  simp_all
+
+/-! ### the arrays `sort` orders: one kind of scalar throughout -/
+
+/-- all integers, all strings, all chars, all bytes, all booleans, or all doubles none of which is
+NaN.  (Integer/float mixes are comparable too, but `Int64.toFloat` is opaque to the kernel, and
+beyond 2^53 the mixed order is not transitive.) -/
+def SameKind (xs : List Val) : Prop :=
+  (∀ v ∈ xs, ∃ n, v = .int n) ∨ (∀ v ∈ xs, ∃ s, v = .str s) ∨ (∀ v ∈ xs, ∃ c, v = .char c) ∨
+  (∀ v ∈ xs, ∃ b, v = .byte b) ∨ (∀ v ∈ xs, ∃ b, v = .bool b) ∨ (∀ v ∈ xs, ∃ f, v = .float f ∧ IsNum f)
+
+def intKey : Val → Int | .int n => n.toInt | _ => 0
+def strKey : Val → String | .str s => s | _ => ""
+def charKey : Val → Char | .char c => c | _ => 'a'
+def byteKey : Val → Nat | .byte b => b.toNat | _ => 0
+def boolKey : Val → Nat | .bool b => b.toNat | _ => 0
+def floatKey : Val → Int × Int × Int | .float f => fkey f | _ => (0, 0, 0)
+
+/-- **`sort` sorts**: on an array of one scalar kind the result is the permutation of the input
+that is ascending in the model's order — no side condition on the order -/
+theorem sort_sorted_sameKind (xs : List Val) (h : SameKind xs) :
+    (sortVals xs).Pairwise (fun a b => leVal a b = true) ∧ (sortVals xs).Perm xs := by
+  rcases h with h | h | h | h | h | h
+  · apply sort_sorted_of_key intKey (· ≤ ·) (fun _ _ _ => Int.le_trans) Int.le_total
+    intro a ha b hb
+    obtain ⟨x, rfl⟩ := h a ha; obtain ⟨y, rfl⟩ := h b hb
+    exact leVal_int x y
+  · apply sort_sorted_of_key strKey (· ≤ ·) (fun _ _ _ => String.le_trans) String.le_total
+    intro a ha b hb
+    obtain ⟨x, rfl⟩ := h a ha; obtain ⟨y, rfl⟩ := h b hb
+    exact leVal_str x y
+  · apply sort_sorted_of_key charKey (· ≤ ·) (fun _ _ _ => Char.le_trans) Char.le_total
+    intro a ha b hb
+    obtain ⟨x, rfl⟩ := h a ha; obtain ⟨y, rfl⟩ := h b hb
+    exact leVal_char x y
+  · apply sort_sorted_of_key byteKey (· ≤ ·) (fun _ _ _ => Nat.le_trans) Nat.le_total
+    intro a ha b hb
+    obtain ⟨x, rfl⟩ := h a ha; obtain ⟨y, rfl⟩ := h b hb
+    exact leVal_byte x y
+  · apply sort_sorted_of_key boolKey (· ≤ ·) (fun _ _ _ => Nat.le_trans) Nat.le_total
+    intro a ha b hb
+    obtain ⟨x, rfl⟩ := h a ha; obtain ⟨y, rfl⟩ := h b hb
+    exact leVal_bool x y
+  · apply sort_sorted_of_key floatKey lexle lexle_trans lexle_total
+    intro a ha b hb
+    obtain ⟨x, rfl, hx⟩ := h a ha; obtain ⟨y, rfl, hy⟩ := h b hb
+    exact leVal_float x y hx hy
+
+example : (sortVals [.float 2.5, .float (-0.0), .float (1.0 / 0.0)]).Pairwise (fun a b => leVal a b = true) :=
+  (sort_sorted_sameKind _ (.inr (.inr (.inr (.inr (.inr (by
+    intro v hv
+    simp only [List.mem_cons, List.mem_nil_iff, or_false] at hv
+    rcases hv with rfl | rfl | rfl <;> exact ⟨_, rfl, isNum_of_comparable _ (by decide +kernel)⟩))))))).1
+example : (sortVals [.str "b", .str "", .str "ab"]).Perm [.str "b", .str "", .str "ab"] :=
+  (sort_sorted_sameKind _ (.inr (.inl (by
+    intro v hv
+    simp only [List.mem_cons, List.mem_nil_iff, or_false] at hv
+    rcases hv with rfl | rfl | rfl <;> exact ⟨_, rfl⟩)))).2
+
+theorem cmpFloat_isSome (a b : Float) (ha : IsNum a) (hb : IsNum b) : (cmpFloat a b).isSome = true := by
+  have hs := compare_isSome _ _ ha hb
+  have hlt := float_lt_iff a b
+  have heq := float_beq_iff a b
+  have hgt := float_lt_iff b a
+  rw [fcmp_swap] at hgt
+  change (fcmp a b).isSome = true at hs
+  unfold cmpFloat
+  cases h : fcmp a b with
+  | none => rw [h] at hs; cases hs
+  | some o =>
+    rw [h] at hlt heq hgt
+    cases o <;> simp_all
+
+theorem sameKind_comparable (xs : List Val) (h : SameKind xs) :
+    ∀ a ∈ xs, ∀ b ∈ xs, (a.partialCmp b).isSome = true := by
+  intro a ha b hb
+  rcases h with h | h | h | h | h | h
+  all_goals first
+    | (obtain ⟨x, rfl⟩ := h a ha; obtain ⟨y, rfl⟩ := h b hb; rfl)
+    | (obtain ⟨x, rfl, hx⟩ := h a ha; obtain ⟨y, rfl, hy⟩ := h b hb; exact cmpFloat_isSome x y hx hy)
+
+/-- the `sort` builtin on an array of one scalar kind: it succeeds, stores and returns the
+ascending permutation -/
+theorem sort_call_sameKind (i : Nat) (xs : List Val) (h : SameKind xs) :
+    ∃ ys, call "sort" [.arr i xs] = .mutated (.arr i ys) (.arr i ys) ∧
+      ys.Pairwise (fun a b => leVal a b = true) ∧ ys.Perm xs := by
+  have hc := sameKind_comparable xs h
+  have hs := contract_sort_arr i xs
+  have hall : xs.all (fun a => xs.all (fun b => (a.partialCmp b).isSome)) = true := by
+    simp only [List.all_eq_true]; exact hc
+  have hspec : Spec.Builtins.call "sort" [.arr i xs] =
+      .mutate (.arr i (xs.mergeSort leVal)) (.arr i (xs.mergeSort leVal)) := by
+    show (if xs.all (fun a => xs.all (fun b => (a.partialCmp b).isSome)) = true then _ else _) = _
+    rw [if_pos hall]; rfl
+  rw [hspec] at hs
+  exact ⟨sortVals xs, hs, sort_sorted_sameKind xs h⟩
 
 end P2sh.Props.C11
